@@ -311,6 +311,18 @@ procedure delete(vp)
  x12:   if (~cref[vc].has) { ev := Ev(self, "rename", P("cidref", vc), P("cidrefdel", vc), "!fnf"); vcls := "ioerror"; goto xrel; }
         else { cref[vc] := NoList; mark := mark \cup {P("cidrefdel", vc)};
                ev := Ev(self, "rename", P("cidref", vc), P("cidrefdel", vc), "ok"); };
+        \* fix F13: the object may have been stored since it was found missing; this pid was
+        \* its last reference, so it goes as well
+ x12b:  vx := obj[vc] = "ok"; ev := Ev(self, "stat", P("obj", vc), NoPath, FN(vx));
+        if (~vx) {
+ x12c:    ev := Ev(self, "stat", P("obj", vc), NoPath, FN(obj[vc] = "ok"));   \* objects/<cid> unsharded
+        } else {
+ x12c2:   ev := Ev(self, "stat", P("obj", vc), NoPath, FN(obj[vc] = "ok"));   \* _get_hashstore_data_object_path
+ x12d:    ev := Ev(self, "stat", P("objdel", vc), NoPath, FN(P("objdel", vc) \in mark));
+ x12e:    if (obj[vc] # "ok") { ev := Ev(self, "rename", P("obj", vc), P("objdel", vc), "!fnf"); vcls := "ioerror"; goto xrel; }
+          else { obj[vc] := "absent"; mark := mark \cup {P("objdel", vc)};
+                 ev := Ev(self, "rename", P("obj", vc), P("objdel", vc), "ok"); };
+        };
       };
  xrel: call release("cid", vc);
  x13: if (vcls = "ioerror") { goto dfin; };
@@ -318,6 +330,9 @@ procedure delete(vp)
  x15: mark := mark \ {P("pidrefdel", vp)}; ev := Ev(self, "remove", P("pidrefdel", vp), NoPath, "ok");
  x16: if (P("cidrefdel", vc) \in mark) {
         mark := mark \ {P("cidrefdel", vc)}; ev := Ev(self, "remove", P("cidrefdel", vc), NoPath, "ok");
+      };
+ x17: if (P("objdel", vc) \in mark) {
+        mark := mark \ {P("objdel", vc)}; ev := Ev(self, "remove", P("objdel", vc), NoPath, "ok");
       };
  dfin: call release("refpid", vp);
  d8:  call release("objpid", vp);
@@ -471,7 +486,7 @@ fair process (proc \in Thread) {
  fin: skip;
 }
 } *)
-\* BEGIN TRANSLATION (chksum(pcal) = "9a173206" /\ chksum(tla) = "c504c685")
+\* BEGIN TRANSLATION (chksum(pcal) = "3e4492d0" /\ chksum(tla) = "b8c5e917")
 \* Procedure variable va of procedure tag at line 97 col 13 changed to va_
 \* Procedure variable vb of procedure tag at line 97 col 25 changed to vb_
 \* Procedure variable vrl of procedure tag at line 97 col 77 changed to vrl_
@@ -484,9 +499,9 @@ fair process (proc \in Thread) {
 \* Procedure variable vb of procedure delete at line 228 col 60 changed to vb_de
 \* Procedure variable vx of procedure delete at line 228 col 72 changed to vx_de
 \* Procedure variable vf of procedure delete at line 229 col 25 changed to vf_
-\* Procedure variable vx of procedure getmeta at line 391 col 13 changed to vx_g
-\* Procedure variable vx of procedure delmeta_one at line 404 col 13 changed to vx_del
-\* Procedure variable vc of procedure retrieve at line 425 col 13 changed to vc_r
+\* Procedure variable vx of procedure getmeta at line 406 col 13 changed to vx_g
+\* Procedure variable vx of procedure delmeta_one at line 419 col 13 changed to vx_del
+\* Procedure variable vc of procedure retrieve at line 440 col 13 changed to vc_r
 \* Parameter vtb of procedure claim at line 65 col 17 changed to vtb_
 \* Parameter vid of procedure claim at line 65 col 22 changed to vid_
 \* Parameter vp of procedure tag at line 96 col 15 changed to vp_
@@ -494,13 +509,13 @@ fair process (proc \in Thread) {
 \* Parameter vp of procedure store at line 171 col 17 changed to vp_s
 \* Parameter vc of procedure store at line 171 col 21 changed to vc_s
 \* Parameter vp of procedure delete at line 227 col 18 changed to vp_d
-\* Parameter vp of procedure delmeta_all at line 331 col 23 changed to vp_de
-\* Parameter vp of procedure putmeta at line 380 col 19 changed to vp_p
-\* Parameter vf of procedure putmeta at line 380 col 23 changed to vf_p
-\* Parameter vp of procedure getmeta at line 390 col 19 changed to vp_g
-\* Parameter vf of procedure getmeta at line 390 col 23 changed to vf_g
-\* Parameter vp of procedure delmeta_one at line 403 col 23 changed to vp_del
-\* Parameter vp of procedure delmeta_top at line 417 col 23 changed to vp_delm
+\* Parameter vp of procedure delmeta_all at line 346 col 23 changed to vp_de
+\* Parameter vp of procedure putmeta at line 395 col 19 changed to vp_p
+\* Parameter vf of procedure putmeta at line 395 col 23 changed to vf_p
+\* Parameter vp of procedure getmeta at line 405 col 19 changed to vp_g
+\* Parameter vf of procedure getmeta at line 405 col 23 changed to vf_g
+\* Parameter vp of procedure delmeta_one at line 418 col 23 changed to vp_del
+\* Parameter vp of procedure delmeta_top at line 432 col 23 changed to vp_delm
 CONSTANT defaultInitValue
 VARIABLES pc, obj, pref, cref, doc, mark, keep, locked, waitq, woken, ev, 
           result, rdata, stack
@@ -2308,7 +2323,7 @@ x12(self) == /\ pc[self] = "x12"
                    ELSE /\ cref' = [cref EXCEPT ![vc_[self]] = NoList]
                         /\ mark' = (mark \cup {P("cidrefdel", vc_[self])})
                         /\ ev' = Ev(self, "rename", P("cidref", vc_[self]), P("cidrefdel", vc_[self]), "ok")
-                        /\ pc' = [pc EXCEPT ![self] = "xrel"]
+                        /\ pc' = [pc EXCEPT ![self] = "x12b"]
                         /\ vcls' = vcls
              /\ UNCHANGED << obj, pref, doc, keep, locked, waitq, woken, 
                              result, rdata, stack, vtb_, vid_, vtb, vid, vp_, 
@@ -2318,6 +2333,78 @@ x12(self) == /\ pc[self] = "x12"
                              vtodo, vkeepl, vmarked, ve, vp_p, vf_p, vver, 
                              vp_g, vf_g, vx_g, vp_del, vf, vx_del, vp_delm, vp, 
                              vc_r, vrl, va, vb, vx >>
+
+x12b(self) == /\ pc[self] = "x12b"
+              /\ vx_de' = [vx_de EXCEPT ![self] = obj[vc_[self]] = "ok"]
+              /\ ev' = Ev(self, "stat", P("obj", vc_[self]), NoPath, FN(vx_de'[self]))
+              /\ IF ~vx_de'[self]
+                    THEN /\ pc' = [pc EXCEPT ![self] = "x12c"]
+                    ELSE /\ pc' = [pc EXCEPT ![self] = "x12c2"]
+              /\ UNCHANGED << obj, pref, cref, doc, mark, keep, locked, waitq, 
+                              woken, result, rdata, stack, vtb_, vid_, vtb, 
+                              vid, vp_, vc_t, va_, vb_, vout, vmade, vrp, vrl_, 
+                              vp_s, vc_s, vval, vx_, vc, vb_d, vx_d, vp_d, vc_, 
+                              vcls, vrl_d, va_d, vb_de, vdels, vdocs, vf_, 
+                              vp_de, vtodo, vkeepl, vmarked, ve, vp_p, vf_p, 
+                              vver, vp_g, vf_g, vx_g, vp_del, vf, vx_del, 
+                              vp_delm, vp, vc_r, vrl, va, vb, vx >>
+
+x12c(self) == /\ pc[self] = "x12c"
+              /\ ev' = Ev(self, "stat", P("obj", vc_[self]), NoPath, FN(obj[vc_[self]] = "ok"))
+              /\ pc' = [pc EXCEPT ![self] = "xrel"]
+              /\ UNCHANGED << obj, pref, cref, doc, mark, keep, locked, waitq, 
+                              woken, result, rdata, stack, vtb_, vid_, vtb, 
+                              vid, vp_, vc_t, va_, vb_, vout, vmade, vrp, vrl_, 
+                              vp_s, vc_s, vval, vx_, vc, vb_d, vx_d, vp_d, vc_, 
+                              vcls, vrl_d, va_d, vb_de, vx_de, vdels, vdocs, 
+                              vf_, vp_de, vtodo, vkeepl, vmarked, ve, vp_p, 
+                              vf_p, vver, vp_g, vf_g, vx_g, vp_del, vf, vx_del, 
+                              vp_delm, vp, vc_r, vrl, va, vb, vx >>
+
+x12c2(self) == /\ pc[self] = "x12c2"
+               /\ ev' = Ev(self, "stat", P("obj", vc_[self]), NoPath, FN(obj[vc_[self]] = "ok"))
+               /\ pc' = [pc EXCEPT ![self] = "x12d"]
+               /\ UNCHANGED << obj, pref, cref, doc, mark, keep, locked, waitq, 
+                               woken, result, rdata, stack, vtb_, vid_, vtb, 
+                               vid, vp_, vc_t, va_, vb_, vout, vmade, vrp, 
+                               vrl_, vp_s, vc_s, vval, vx_, vc, vb_d, vx_d, 
+                               vp_d, vc_, vcls, vrl_d, va_d, vb_de, vx_de, 
+                               vdels, vdocs, vf_, vp_de, vtodo, vkeepl, 
+                               vmarked, ve, vp_p, vf_p, vver, vp_g, vf_g, vx_g, 
+                               vp_del, vf, vx_del, vp_delm, vp, vc_r, vrl, va, 
+                               vb, vx >>
+
+x12d(self) == /\ pc[self] = "x12d"
+              /\ ev' = Ev(self, "stat", P("objdel", vc_[self]), NoPath, FN(P("objdel", vc_[self]) \in mark))
+              /\ pc' = [pc EXCEPT ![self] = "x12e"]
+              /\ UNCHANGED << obj, pref, cref, doc, mark, keep, locked, waitq, 
+                              woken, result, rdata, stack, vtb_, vid_, vtb, 
+                              vid, vp_, vc_t, va_, vb_, vout, vmade, vrp, vrl_, 
+                              vp_s, vc_s, vval, vx_, vc, vb_d, vx_d, vp_d, vc_, 
+                              vcls, vrl_d, va_d, vb_de, vx_de, vdels, vdocs, 
+                              vf_, vp_de, vtodo, vkeepl, vmarked, ve, vp_p, 
+                              vf_p, vver, vp_g, vf_g, vx_g, vp_del, vf, vx_del, 
+                              vp_delm, vp, vc_r, vrl, va, vb, vx >>
+
+x12e(self) == /\ pc[self] = "x12e"
+              /\ IF obj[vc_[self]] # "ok"
+                    THEN /\ ev' = Ev(self, "rename", P("obj", vc_[self]), P("objdel", vc_[self]), "!fnf")
+                         /\ vcls' = [vcls EXCEPT ![self] = "ioerror"]
+                         /\ pc' = [pc EXCEPT ![self] = "xrel"]
+                         /\ UNCHANGED << obj, mark >>
+                    ELSE /\ obj' = [obj EXCEPT ![vc_[self]] = "absent"]
+                         /\ mark' = (mark \cup {P("objdel", vc_[self])})
+                         /\ ev' = Ev(self, "rename", P("obj", vc_[self]), P("objdel", vc_[self]), "ok")
+                         /\ pc' = [pc EXCEPT ![self] = "xrel"]
+                         /\ vcls' = vcls
+              /\ UNCHANGED << pref, cref, doc, keep, locked, waitq, woken, 
+                              result, rdata, stack, vtb_, vid_, vtb, vid, vp_, 
+                              vc_t, va_, vb_, vout, vmade, vrp, vrl_, vp_s, 
+                              vc_s, vval, vx_, vc, vb_d, vx_d, vp_d, vc_, 
+                              vrl_d, va_d, vb_de, vx_de, vdels, vdocs, vf_, 
+                              vp_de, vtodo, vkeepl, vmarked, ve, vp_p, vf_p, 
+                              vver, vp_g, vf_g, vx_g, vp_del, vf, vx_del, 
+                              vp_delm, vp, vc_r, vrl, va, vb, vx >>
 
 xrel(self) == /\ pc[self] = "xrel"
               /\ /\ stack' = [stack EXCEPT ![self] = << [ procedure |->  "release",
@@ -2390,6 +2477,22 @@ x16(self) == /\ pc[self] = "x16"
              /\ IF P("cidrefdel", vc_[self]) \in mark
                    THEN /\ mark' = mark \ {P("cidrefdel", vc_[self])}
                         /\ ev' = Ev(self, "remove", P("cidrefdel", vc_[self]), NoPath, "ok")
+                   ELSE /\ TRUE
+                        /\ UNCHANGED << mark, ev >>
+             /\ pc' = [pc EXCEPT ![self] = "x17"]
+             /\ UNCHANGED << obj, pref, cref, doc, keep, locked, waitq, woken, 
+                             result, rdata, stack, vtb_, vid_, vtb, vid, vp_, 
+                             vc_t, va_, vb_, vout, vmade, vrp, vrl_, vp_s, 
+                             vc_s, vval, vx_, vc, vb_d, vx_d, vp_d, vc_, vcls, 
+                             vrl_d, va_d, vb_de, vx_de, vdels, vdocs, vf_, 
+                             vp_de, vtodo, vkeepl, vmarked, ve, vp_p, vf_p, 
+                             vver, vp_g, vf_g, vx_g, vp_del, vf, vx_del, 
+                             vp_delm, vp, vc_r, vrl, va, vb, vx >>
+
+x17(self) == /\ pc[self] = "x17"
+             /\ IF P("objdel", vc_[self]) \in mark
+                   THEN /\ mark' = mark \ {P("objdel", vc_[self])}
+                        /\ ev' = Ev(self, "remove", P("objdel", vc_[self]), NoPath, "ok")
                    ELSE /\ TRUE
                         /\ UNCHANGED << mark, ev >>
              /\ pc' = [pc EXCEPT ![self] = "dfin"]
@@ -2469,9 +2572,11 @@ delete(self) == d1(self) \/ d2(self) \/ f1(self) \/ f2(self) \/ f3(self)
                    \/ o4(self) \/ missing(self) \/ x1(self) \/ x2(self)
                    \/ x3(self) \/ x4(self) \/ x5(self) \/ x6(self)
                    \/ x7(self) \/ x8(self) \/ x9(self) \/ x10(self)
-                   \/ x10b(self) \/ x11(self) \/ x12(self) \/ xrel(self)
-                   \/ x13(self) \/ x14(self) \/ x15(self) \/ x16(self)
-                   \/ dfin(self) \/ d8(self) \/ d9(self)
+                   \/ x10b(self) \/ x11(self) \/ x12(self) \/ x12b(self)
+                   \/ x12c(self) \/ x12c2(self) \/ x12d(self) \/ x12e(self)
+                   \/ xrel(self) \/ x13(self) \/ x14(self) \/ x15(self)
+                   \/ x16(self) \/ x17(self) \/ dfin(self) \/ d8(self)
+                   \/ d9(self)
 
 dm1(self) == /\ pc[self] = "dm1"
              /\ vtodo' = [vtodo EXCEPT ![self] = {<<"doc", vff>> : vff \in {g \in Fmt : doc[vp_de[self]][g] # None}}
